@@ -1,2 +1,387 @@
-use crate::harness::Gen;
-pub fn gens() -> Vec<Gen> { vec![] }
+//! C12: decoy digests are present when asked, inert, and indistinguishable.
+
+use crate::harness::{fail, Gen, Verdict};
+use crate::oracle::{hidden_paths, view, DiscIndex, Strategy};
+use crate::pipeline::{honest_presentation, Cfg};
+use crate::rng::Rng;
+use crate::sut::{self, Out};
+use crate::trees::{self, build_selection, choices, strategies_for, SelStyle};
+use crate::util::{b64d, decode_disclosure, jstr, short, Parts, FAR_EXP, J};
+use serde_json::{json, Map};
+use std::collections::{HashMap, HashSet};
+
+pub fn gens() -> Vec<Gen> {
+    vec![
+        Gen { name: "c12.presence", prop: "C12", tags: &["decoy", "presence", "create_sd_claims_object", "src/issuer.rs"], cases: cases_presence, check },
+        Gen { name: "c12.order", prop: "C12", tags: &["order", "sort", "shuffle", "leak"], cases: cases_order, check },
+        Gen { name: "c12.repeat", prop: "C12", tags: &["unique", "repeat"], cases: cases_repeat, check },
+        Gen { name: "c12.inert", prop: "C12", tags: &["inert", "verifier", "holder"], cases: cases_inert, check },
+        Gen { name: "c12.presence_enum", prop: "C12", tags: &["enum"], cases: cases_presence_enum, check },
+    ]
+}
+
+fn cases_presence(rng: &mut Rng, sink: &mut dyn FnMut(J) -> bool) {
+    let mut n = 0usize;
+    // objects with 0 hidden members: TopLevel with nested objects, Custom hiding only deep members
+    let special = vec![
+        (json!({"iss": "i", "exp": FAR_EXP, "addr": {"city": "X", "geo": {"lat": 1}}, "list": [{"k": 1}, {}], "e": {}}), Strategy::TopLevel),
+        (json!({"iss": "i", "exp": FAR_EXP, "addr": {"city": "X", "geo": {"lat": 1}}, "list": [{"k": 1}, {}], "e": {}}), Strategy::Custom(vec!["$.addr.geo.lat".into()])),
+        (json!({"iss": "i", "exp": FAR_EXP, "addr": {"city": "X", "geo": {"lat": 1}}, "list": [{"k": 1}, {}], "e": {}}), Strategy::Custom(vec!["$.list[0]".into()])),
+        (json!({"iss": "i", "exp": FAR_EXP, "addr": {"city": "X", "geo": {"lat": 1}}, "list": [{"k": 1}, {}], "e": {}}), Strategy::NoSD),
+        (json!({"iss": "i", "exp": FAR_EXP, "addr": {"city": "X", "geo": {"lat": 1}}, "list": [{"k": 1}, {}], "e": {}}), Strategy::AllLevels),
+        (json!({"iss": "i", "exp": FAR_EXP}), Strategy::AllLevels),
+        (json!({"iss": "i", "exp": FAR_EXP, "m": [[{"a": {}}]]}), Strategy::AllLevels),
+        (json!({"iss": "i", "exp": FAR_EXP, "m": [[{"a": {}}]]}), Strategy::TopLevel),
+    ];
+    for (claims, s) in special {
+        for decoys in [true, false] {
+            n += 1;
+            let mut cfg = Cfg::simple(claims.clone(), s.clone()).variant(n);
+            cfg.decoys = decoys;
+            let mut c = cfg.to_json();
+            c["kind"] = json!("presence");
+            if !sink(c) {
+                return;
+            }
+        }
+    }
+    for (i, t) in trees::catalog().iter().enumerate() {
+        let claims = trees::with_std(t, i);
+        for s in strategies_for(&claims, rng, 3, 3) {
+            n += 1;
+            let mut cfg = Cfg::simple(claims.clone(), s).variant(n);
+            cfg.decoys = n % 4 != 0;
+            let mut c = cfg.to_json();
+            c["kind"] = json!("presence");
+            if !sink(c) {
+                return;
+            }
+        }
+    }
+}
+
+fn cases_presence_enum(rng: &mut Rng, sink: &mut dyn FnMut(J) -> bool) {
+    let mut n = 0usize;
+    for nodes in 1..=4 {
+        for (i, t) in trees::trees_with_nodes(nodes).iter().enumerate() {
+            let claims = trees::with_std(t, i);
+            for s in strategies_for(&claims, rng, 3, 2) {
+                n += 1;
+                let mut cfg = Cfg::simple(claims.clone(), s).variant(n);
+                cfg.decoys = n % 4 != 0;
+                let mut c = cfg.to_json();
+                c["kind"] = json!("presence");
+                if !sink(c) {
+                    return;
+                }
+            }
+        }
+    }
+}
+
+fn cases_order(_rng: &mut Rng, sink: &mut dyn FnMut(J) -> bool) {
+    for decoys in [true, false] {
+        for whre in ["disclosed", "payload"] {
+            for strategy in ["AllLevels", "Custom"] {
+                for format in ["compact", "json"] {
+                    if !sink(json!({"kind": "order", "where": whre, "decoys": decoys, "strategy": strategy, "format": format, "lists": 240})) {
+                        return;
+                    }
+                }
+            }
+        }
+    }
+}
+
+fn cases_repeat(_rng: &mut Rng, sink: &mut dyn FnMut(J) -> bool) {
+    for alg in ["ES256", "EdDSA", "HS256"] {
+        for same_claims in [true, false] {
+            for reps in [2, 5, 20] {
+                if !sink(json!({"kind": "repeat", "alg": alg, "same_claims": same_claims, "reps": reps})) {
+                    return;
+                }
+            }
+        }
+    }
+}
+
+fn cases_inert(rng: &mut Rng, sink: &mut dyn FnMut(J) -> bool) {
+    let mut n = 0usize;
+    for (i, t) in trees::catalog().iter().enumerate() {
+        let claims = trees::with_std(t, i);
+        for s in [Strategy::AllLevels, Strategy::TopLevel] {
+            let hidden = hidden_paths(&claims, &s);
+            for chosen in choices(&hidden, rng, 2) {
+                n += 1;
+                let sel = build_selection(&claims, &s, &chosen, SelStyle::Sparse, rng);
+                let mut c = Cfg::simple(claims.clone(), s.clone()).variant(n).to_json();
+                c["kind"] = json!("inert");
+                c["selection"] = J::Object(sel);
+                if !sink(c) {
+                    return;
+                }
+            }
+        }
+    }
+}
+
+/// Walk every object of an issued structure (payload and disclosed values); for each return
+/// (where, _sd list as strings).
+fn object_sd_lists(payload: &Map<String, J>, idx: &DiscIndex) -> Vec<(String, bool, Vec<String>, Vec<String>)> {
+    // (location, inside_disclosure, sd list, plain member names)
+    fn obj(o: &Map<String, J>, loc: &str, inside: bool, idx: &DiscIndex, out: &mut Vec<(String, bool, Vec<String>, Vec<String>)>) {
+        let sd: Vec<String> = o.get("_sd").and_then(|s| s.as_array()).map(|a| a.iter().filter_map(|d| d.as_str().map(String::from)).collect()).unwrap_or_default();
+        out.push((loc.to_string(), inside, sd.clone(), o.keys().filter(|k| *k != "_sd").cloned().collect()));
+        for (k, v) in o {
+            if k == "_sd" {
+                continue;
+            }
+            if loc == "$" && (k == "cnf" || k == "iss" || k == "iat" || k == "exp" || k == "_sd_alg") {
+                continue;
+            }
+            val(v, &format!("{loc}.{k}"), inside, idx, out);
+        }
+        for d in &sd {
+            if let Some((_, dec)) = idx.by_digest.get(d) {
+                if let Some(arr) = dec.as_array().filter(|a| a.len() == 3) {
+                    val(&arr[2], &format!("{loc}.<{}>", arr[1].as_str().unwrap_or("?")), true, idx, out);
+                }
+            }
+        }
+    }
+    fn val(v: &J, loc: &str, inside: bool, idx: &DiscIndex, out: &mut Vec<(String, bool, Vec<String>, Vec<String>)>) {
+        match v {
+            J::Object(o) => obj(o, loc, inside, idx, out),
+            J::Array(a) => {
+                for (i, e) in a.iter().enumerate() {
+                    if let Some(d) = e.as_object().filter(|o| o.len() == 1).and_then(|o| o.get("...")).and_then(|d| d.as_str()) {
+                        if let Some((_, dec)) = idx.by_digest.get(d) {
+                            if let Some(arr) = dec.as_array().filter(|a| a.len() == 2) {
+                                val(&arr[1], &format!("{loc}[<{i}>]"), true, idx, out);
+                            }
+                        }
+                    } else {
+                        val(e, &format!("{loc}[{i}]"), inside, idx, out);
+                    }
+                }
+            }
+            _ => {}
+        }
+    }
+    let mut out = Vec::new();
+    obj(payload, "$", false, idx, &mut out);
+    out
+}
+
+fn order_claims(k: usize) -> J {
+    // several objects with >= 3 hidden members each, at payload level and inside hidden values
+    json!({
+        "iss": "i", "exp": FAR_EXP,
+        "given": format!("g{k}"), "family": "f", "email": "e", "phone": "p",
+        "addr": {"street": "s", "city": "c", "zip": "z", "country": "DE"},
+        "emp": {"org": "o", "role": "r", "since": 2000 + k, "geo": {"lat": 1, "lon": 2, "alt": 3}},
+        "list": [{"a": 1, "b": 2, "c": 3}, {"x": 1, "y": 2, "z": 3}]
+    })
+}
+
+fn order_custom_paths() -> Vec<String> {
+    [
+        "$.given", "$.family", "$.email", "$.addr", "$.addr.street", "$.addr.city", "$.addr.zip", "$.emp", "$.emp.org", "$.emp.role", "$.emp.since", "$.emp.geo.lat", "$.emp.geo.lon", "$.emp.geo.alt",
+        "$.list[0]", "$.list[0].a", "$.list[0].b", "$.list[0].c", "$.list[1].x", "$.list[1].y", "$.list[1].z",
+    ]
+    .iter()
+    .map(|s| s.to_string())
+    .collect()
+}
+
+pub fn check(case: &J) -> Verdict {
+    match case["kind"].as_str().unwrap_or("") {
+        "presence" => {
+            let Some(cfg) = Cfg::from_json(case) else { return Verdict::Trivial };
+            if !cfg.strategy.well_formed() {
+                return Verdict::Trivial;
+            }
+            let (_, parts) = match cfg.issue_parts() {
+                Ok(x) => x,
+                Err(v) => return v,
+            };
+            let Some(payload) = parts.payload() else { return Verdict::Trivial };
+            let idx = DiscIndex::new(&parts.disclosures);
+            let lists = object_sd_lists(&payload, &idx);
+            let mut all_unmatched: Vec<String> = Vec::new();
+            for (loc, _, sd, _) in &lists {
+                let unmatched: Vec<&String> = sd.iter().filter(|d| !idx.by_digest.contains_key(*d)).collect();
+                if cfg.decoys && unmatched.is_empty() {
+                    return fail(
+                        format!("decoys on, but the object at {loc} carries no decoy digest (its _sd: {}); payload = {}", jstr(&json!(sd)), short(&jstr(&J::Object(payload.clone())), 400)),
+                        "every object in the payload and in every disclosed value has >= 1 digest matching no disclosure",
+                    );
+                }
+                if !cfg.decoys && !unmatched.is_empty() {
+                    return fail(format!("decoys off, but digest {} at {loc} matches no disclosure", unmatched[0]), "every digest matches an issued disclosure");
+                }
+                for d in unmatched {
+                    if d.len() != 43 || b64d(d).map(|b| b.len()) != Some(32) {
+                        return fail(format!("decoy `{d}` at {loc} does not have the form of a SHA-256 base64url digest"), "exactly the form of a real digest");
+                    }
+                    all_unmatched.push(d.clone());
+                }
+            }
+            let mut seen = HashSet::new();
+            for d in &all_unmatched {
+                if !seen.insert(d) {
+                    return fail(format!("decoy digest {d} occurs twice in one credential"), "decoys unique across the credential");
+                }
+            }
+            Verdict::Pass
+        }
+        "repeat" => {
+            let alg = case["alg"].as_str().unwrap_or("ES256");
+            let reps = case["reps"].as_u64().unwrap_or(2) as usize;
+            let mut issuer = sut::new_issuer(alg);
+            let mut seen: HashMap<String, usize> = HashMap::new();
+            for r in 0..reps {
+                let claims = if case["same_claims"].as_bool().unwrap_or(true) { order_claims(0) } else { order_claims(r) };
+                let format = if r % 2 == 0 { "compact" } else { "json" };
+                let Out::Ok(s) = sut::issue_on(&mut issuer, &claims, &Strategy::AllLevels, None, true, format) else {
+                    return fail(format!("issuance #{r} failed"), "Ok");
+                };
+                let Some(parts) = Parts::parse(&s, format) else { return Verdict::Trivial };
+                let Some(payload) = parts.payload() else { return Verdict::Trivial };
+                let idx = DiscIndex::new(&parts.disclosures);
+                let mut n_decoys = 0;
+                for (loc, _, sd, _) in object_sd_lists(&payload, &idx) {
+                    for d in sd.iter().filter(|d| !idx.by_digest.contains_key(*d)) {
+                        n_decoys += 1;
+                        if let Some(prev) = seen.insert(d.clone(), r) {
+                            return fail(
+                                format!("decoy digest {d} (at {loc}) of issuance #{} was already used in issuance #{} of the same issuer instance", r + 1, prev + 1),
+                                "decoy digests unique across repeated issuances",
+                            );
+                        }
+                    }
+                }
+                if n_decoys == 0 {
+                    return fail(format!("issuance #{} with decoys on carries no decoy", r + 1), "decoys present");
+                }
+            }
+            Verdict::Pass
+        }
+        "order" => {
+            let decoys = case["decoys"].as_bool().unwrap_or(true);
+            let want_inside = case["where"] == "disclosed";
+            let format = case["format"].as_str().unwrap_or("compact");
+            let target = case["lists"].as_u64().unwrap_or(200) as usize;
+            let strategy = if case["strategy"] == "Custom" { Strategy::Custom(order_custom_paths()) } else { Strategy::AllLevels };
+            let mut total = 0usize;
+            let mut member_order = 0usize;
+            let mut decoys_last = 0usize;
+            let mut with_decoys = 0usize;
+            let mut k = 0;
+            let mut sample = String::new();
+            while total < target && k < 400 {
+                k += 1;
+                let claims = order_claims(k);
+                let Out::Ok(s) = sut::issue("ES256", &claims, &strategy, None, decoys, format) else { return fail("issuance failed", "Ok") };
+                let Some(parts) = Parts::parse(&s, format) else { return Verdict::Trivial };
+                let Some(payload) = parts.payload() else { return Verdict::Trivial };
+                let idx = DiscIndex::new(&parts.disclosures);
+                let dpaths = crate::oracle::disclosure_paths(&claims, &payload, &parts.disclosures);
+                for (loc, inside, sd, _) in object_sd_lists(&payload, &idx) {
+                    if inside != want_inside {
+                        continue;
+                    }
+                    // positions of real digests and the member index of each in the ORIGINAL object
+                    let mut reals: Vec<(usize, usize)> = Vec::new();
+                    let mut decoy_pos: Vec<usize> = Vec::new();
+                    for (pos, d) in sd.iter().enumerate() {
+                        match idx.by_digest.get(d) {
+                            Some((text, _)) => {
+                                let Some(path) = dpaths.get(text) else { continue };
+                                let parent = crate::oracle::get_path(&claims, &path[..path.len() - 1]);
+                                let name = match path.last() {
+                                    Some(crate::oracle::Seg::Key(k)) => k.clone(),
+                                    _ => continue,
+                                };
+                                let member_idx = parent.and_then(|p| p.as_object()).and_then(|o| o.keys().position(|k| *k == name));
+                                if let Some(mi) = member_idx {
+                                    reals.push((pos, mi));
+                                }
+                            }
+                            None => decoy_pos.push(pos),
+                        }
+                    }
+                    if reals.len() < 2 {
+                        continue;
+                    }
+                    total += 1;
+                    let in_member_order = reals.windows(2).all(|w| w[0].1 < w[1].1);
+                    if in_member_order {
+                        member_order += 1;
+                        if sample.is_empty() {
+                            sample = format!("e.g. {loc}: {}", jstr(&json!(sd)));
+                        }
+                    }
+                    if !decoy_pos.is_empty() {
+                        with_decoys += 1;
+                        let last_real = reals.iter().map(|r| r.0).max().unwrap();
+                        if decoy_pos.iter().all(|p| *p > last_real) {
+                            decoys_last += 1;
+                        }
+                    }
+                }
+            }
+            if total < target {
+                return fail(format!("only {total} _sd lists with >= 2 real digests found {}", if want_inside { "inside disclosed values" } else { "in payloads" }), format!(">= {target} lists to judge"));
+            }
+            if member_order == total {
+                return fail(
+                    format!("ALL {total} _sd lists {} list the real digests in the original member order ({sample})", if want_inside { "inside disclosed values" } else { "in the payload" }),
+                    "sorted or shuffled lists (member order in about 1/k! of them)",
+                );
+            }
+            if decoys && with_decoys >= target / 2 && decoys_last == with_decoys {
+                return fail(format!("ALL {with_decoys} _sd lists with decoys {} list the decoys after the real digests", if want_inside { "inside disclosed values" } else { "in the payload" }), "decoys mixed with real digests");
+            }
+            Verdict::Pass
+        }
+        "inert" => {
+            let Some(cfg) = Cfg::from_json(case) else { return Verdict::Trivial };
+            let Some(sel) = case["selection"].as_object() else { return Verdict::Trivial };
+            let mut results = Vec::new();
+            for decoys in [false, true] {
+                let mut c = cfg.clone();
+                c.decoys = decoys;
+                let (issued, pres) = match honest_presentation(&c, sel) {
+                    Ok(x) => x,
+                    Err(v) => return v,
+                };
+                let Some(p) = Parts::parse(&pres, &c.format) else { return Verdict::Trivial };
+                // no decoy is ever presented: every presented disclosure is an issued one
+                if p.disclosures.iter().any(|d| !issued.disclosures.contains(d) || decode_disclosure(d).is_none()) {
+                    return fail("a presented disclosure is not one of the issued ones", "only genuine disclosures");
+                }
+                let v = sut::verify(&pres, &c.alg, c.kb().as_ref(), &c.format);
+                results.push((p.disclosures.len(), v));
+            }
+            let expected = {
+                let mut e = view(&cfg.claims, &cfg.strategy, &J::Object(sel.clone()));
+                if let Some(h) = &cfg.holder {
+                    e["cnf"] = json!({"jwk": crate::keys::holder_jwk_json(h)});
+                }
+                e
+            };
+            for (i, (_, v)) in results.iter().enumerate() {
+                match v {
+                    Out::Ok(c) if *c == expected => {}
+                    o => return fail(format!("decoys {}: verifier -> {}", if i == 0 { "off" } else { "on" }, o.show()), format!("Ok({})", short(&jstr(&expected), 300))),
+                }
+            }
+            if results[0].0 != results[1].0 {
+                return fail(format!("{} disclosures presented without decoys, {} with decoys", results[0].0, results[1].0), "identical holder results");
+            }
+            Verdict::Pass
+        }
+        _ => Verdict::Trivial,
+    }
+}
